@@ -72,7 +72,7 @@ impl<'a> Visitor for V<'a> {
             return Err(format!("{d}: NodeId::from(&enr) differs from node_id()"));
         }
         // uncompressed form agrees with the independent decompression
-        if scheme == Scheme::Secp && fam != FamId::Tiny {
+        if scheme == Scheme::Secp && !matches!(fam, FamId::Tiny | FamId::Mid) {
             let u = crypto::secp_uncompressed(&pk).unwrap();
             if post.pk_unc.as_ref().ok().map(|v| v.as_slice()) != Some(&u[..]) {
                 return Err(format!("{d}: encode_uncompressed() differs from the independent decompression"));
@@ -100,7 +100,7 @@ impl<'a> Visitor for V<'a> {
                 return Err(format!("{d}: node id changed under an update made with the same key"));
             }
         }
-        if (fam != FamId::Tiny && edge_key(scheme, &pk)) || matches!(cx.h.init, Init::Decoded { .. }) {
+        if (!matches!(fam, FamId::Tiny | FamId::Mid) && edge_key(scheme, &pk)) || matches!(cx.h.init, Init::Decoded { .. }) {
             self.nontrivial = true;
         }
         Ok(())
